@@ -171,6 +171,10 @@ def run(tier: str, only=None) -> int:
     P = {"transport": "popen", "backend": "thread", "channels": [ch(up=1, down=2)], "size": 3, "short_reads": True}
     if not only or "chunk" in only:
         harness.run_exploration(rep, PID, "prog/chunking:popen", ChanProg, P, {"ps": 1, "env": 1, "free": 0} if tier == "quick" else {"ps": 1, "env": 3, "free": 1}, max_execs=cap)
+    for tr in ("socket", "via"):
+        P = {"transport": tr, "backend": "thread", "channels": [ch(up=1, down=2)], "size": 3, "short_reads": True, "sendall_splits": tr == "socket"}
+        if not only or "chunk" in only:
+            harness.run_exploration(rep, PID, f"prog/chunking:{tr}", ChanProg, P, {"ps": 0, "env": 1, "free": 0} if tier == "quick" else {"ps": 1, "env": 2, "free": 0}, max_execs=cap)
     return rep.finish()
 
 
